@@ -201,6 +201,7 @@ type progCase struct {
 	then    []stmt // a second put in the same then-chain
 	always  bool   // run the real code even when the reference is unconstrained (crash / side-effect predicates only)
 	preArgs []string
+	cause   string // extra cause label for the violation group
 }
 
 func (pc *progCase) args(text string) []string {
@@ -333,6 +334,9 @@ func (cr *caseRunner) run(pc *progCase) bool {
 		return m
 	}
 	key := func(cause string) string {
+		if pc.cause != "" {
+			cause += ";" + pc.cause
+		}
 		if len(ref.tags) > 0 {
 			cause += ";" + strings.Join(ref.tags, ";")
 		}
